@@ -6,8 +6,10 @@ mod bits;
 mod budget;
 mod findings;
 mod jets;
+mod policy;
 mod prog;
 mod util;
+mod value;
 
 use std::io::{BufRead, Write};
 
@@ -39,6 +41,8 @@ fn main() {
             "findings" => findings::run(&toks[1..]),
             "prog" => prog::run(&toks[1..]),
             "jets" => jets::run(&toks[1..]),
+            "policy" => policy::run(&toks[1..]),
+            "value" => value::run(&toks[1..]),
             other => {
                 eprintln!("unknown command {}", other);
                 std::process::exit(2);
